@@ -47,6 +47,14 @@ EXTENDS JsonValue, Integers
 (*             <<"lenp", rel, segments>>  x.length   [doc] jsonpath.md      *)
 (*             <<"cmp", op, a, b>>  op \in == != < <= > >=                  *)
 (*             <<"and", a, b>>  <<"or", a, b>>  <<"not", a>>               *)
+(*           functions family (section "Built-in functions and arithmetic"):*)
+(*             <<"fn", name, args>>   name(arg, ...)  [doc] functions/*.md  *)
+(*             <<"fq", fexpr, segments>>  a function call followed by path  *)
+(*                 segments: tokenize(@.s, ',')[0]  [doc] tokenize.md       *)
+(*             <<"neg", a>>  unary minus     <<"ar", op, a, b>>  op \in     *)
+(*                 + - * / %   [doc] grammar.md unary-/binary-expression   *)
+(*  A whole expression may also be a function call followed by segments    *)
+(*  ([doc] length.md, [data] functions.json): see TopEval.                 *)
 (***************************************************************************)
 Child(sels) == <<"child", sels>>
 Desc(sels) == <<"desc", sels>>
@@ -69,6 +77,10 @@ FCmp(op, a, b) == <<"cmp", op, a, b>>
 FAnd(a, b) == <<"and", a, b>>
 FOr(a, b) == <<"or", a, b>>
 FNot(a) == <<"not", a>>
+FFn(name, args) == <<"fn", name, args>>
+FFq(e, segs) == <<"fq", e, segs>>
+FNeg(a) == <<"neg", a>>
+FAr(op, a, b) == <<"ar", op, a, b>>
 
 -----------------------------------------------------------------------------
 (* Nodes.  A location is a sequence of path elements <<"n", name>> or      *)
@@ -173,6 +185,35 @@ SliceIdx2(len, s, e, st) ==
   ELSE Walk2(Clamp2(s, len, step, 0, len - 1), Clamp2(e, len, step, len, 0 - 1), step)
 
 -----------------------------------------------------------------------------
+(* Numbers.  Documents and literals of the functions family may contain     *)
+(* non-integer numbers; a number is <<"int", n>> or a NORMALISED non-integer *)
+(* rational <<"rat", n, d>> (d >= 2, gcd(n, d) = 1), so that = is numeric    *)
+(* equality and an integer never equals a "rat".  The implementation under   *)
+(* test computes with IEEE doubles; a rational whose denominator is a power  *)
+(* of two (and small) is exactly representable and every + - * on such       *)
+(* values is exact.  For all other rationals the specification never decides *)
+(* anything that depends on the last bit: see Exact2 / Compare.              *)
+JRat(n, d) == <<"rat", n, d>>
+IsNum(v) == v[1] = "int" \/ v[1] = "rat"
+NumN(v) == v[2]
+NumD(v) == IF v[1] = "rat" THEN v[3] ELSE 1
+AbsI(n) == IF n < 0 THEN 0 - n ELSE n
+RECURSIVE Gcd(_, _)
+Gcd(a, b) == IF b = 0 THEN a ELSE Gcd(b, a % b)
+MkNum(n, d) == LET nn == IF d < 0 THEN 0 - n ELSE n            \* d # 0
+                   dd == AbsI(d)
+                   g == Gcd(AbsI(nn), dd)
+               IN IF dd \div g = 1 THEN <<"int", nn \div g>> ELSE JRat(nn \div g, dd \div g)
+Dyadic(v) == NumD(v) \in {1, 2, 4, 8, 16, 32, 64, 128, 256}
+NumLess(x, y) == NumN(x) * NumD(y) < NumN(y) * NumD(x)
+NumAdd(x, y) == MkNum(NumN(x) * NumD(y) + NumN(y) * NumD(x), NumD(x) * NumD(y))
+NumMul(x, y) == MkNum(NumN(x) * NumN(y), NumD(x) * NumD(y))
+NumNeg(x) == MkNum(0 - NumN(x), NumD(x))
+\* ordering / equality of two numbers by exact value
+NumCmp(op, x, y) == LET lt == NumLess(x, y)  gt == NumLess(y, x) IN
+  CASE op = "==" -> ~lt /\ ~gt [] op = "!=" -> lt \/ gt [] op = "<" -> lt [] op = "<=" -> ~gt [] op = ">" -> gt [] op = ">=" -> ~lt
+
+-----------------------------------------------------------------------------
 (* JSON value comparison in filters.                                        *)
 (*  ==, != : equality of JSON values ([rfc] 2.3.5.2.2; [data] filters.json  *)
 (*           "equals" groups: numbers by value, strings by content, arrays  *)
@@ -189,10 +230,21 @@ JEq(x, y) ==
   ELSE CASE x[1] = "null" -> TRUE
          [] x[1] = "arr" -> Len(x[2]) = Len(y[2]) /\ \A i \in 1..Len(x[2]) : JEq(x[2][i], y[2][i])
          [] x[1] = "obj" -> DOMAIN x[2] = DOMAIN y[2] /\ \A k \in DOMAIN x[2] : JEq(x[2][k], y[2][k])
+         [] x[1] = "rat" -> x[2] = y[2] /\ x[3] = y[3]
          [] OTHER -> x[2] = y[2]
 \* "T" / "F" / "D" (don't care)
+(* Functions family: numbers are compared by value ([data] filters.json      *)
+(* "equals number with fraction", functions.json "avg in filter").  Two      *)
+(* numbers of EQUAL exact value of which one is not exactly representable in *)
+(* binary floating point may or may not be equal as doubles: don't care.     *)
+(* An array whose order is not determined (keys() of an object with two or   *)
+(* more members) has no decided comparison.                                  *)
 Compare(op, x, y) ==
   LET tf(b) == IF b THEN "T" ELSE "F" IN
+  IF x[1] = "uarr" \/ y[1] = "uarr" THEN "D"
+  ELSE IF IsNum(x) /\ IsNum(y) /\ (x[1] = "rat" \/ y[1] = "rat") THEN
+    (IF x = y /\ ~Dyadic(x) THEN "D" ELSE tf(NumCmp(op, x, y)))
+  ELSE
   CASE op = "==" -> tf(JEq(x, y))
     [] op = "!=" -> tf(~JEq(x, y))
     [] OTHER ->
@@ -214,6 +266,8 @@ Truthy(v) == CASE v[1] = "null" -> FALSE
                [] v[1] = "str" -> v[2] # <<>>
                [] v[1] = "arr" -> v[2] # <<>>
                [] v[1] = "obj" -> DOMAIN v[2] # {}
+               [] v[1] = "rat" -> TRUE
+               [] v[1] = "uarr" -> v[2] # <<>>
 
 (* A query inside a filter is "singular" when it consists of name and index *)
 (* selectors only ([rfc] 2.3.5.1 singular-query): it denotes the one value  *)
@@ -232,11 +286,171 @@ HasMark(ns, m) == \E i \in 1..Len(ns) : ns[i] = m
 DCV == <<"DCV">>      \* the "don't care" filter value
 
 -----------------------------------------------------------------------------
+(* Built-in functions and arithmetic (the "functions" family of C12).        *)
+(*                                                                           *)
+(* Sources: [doc] doc/ref/jsonpath/functions/<name>.md - the signature line  *)
+(*   and the "It is a type error if ..." clauses of every page; grammar.md   *)
+(*   (unary-expression, binary-expression, function-expression);             *)
+(*   [data] test_data/functions.json, filters.json (addition, subtraction,   *)
+(*   multiplication, division, modulus, "set plus value" groups), regex.json *)
+(*   (tokenize); [ext] the operator table of the "JsonCons JSONPath"         *)
+(*   document that jsonpath.md designates "for details about the jsoncons    *)
+(*   implementation" (precedence 1 ! unary -, 3 * / %, 4 + -, 5 < <= > >=,   *)
+(*   6 == !=, 7 &&, 8 ||, binary operators left associative), which agrees   *)
+(*   with ordinary arithmetic and with every [data] point (@.key+50==100,    *)
+(*   @.price > sum(..) / length(..), ceil(1.2*2)).                           *)
+(*                                                                           *)
+(* TYPE ERRORS.  [data] functions.json fixes the outcome of a type error in  *)
+(* an expression that is a function call: no result ("ceil('string')" ->     *)
+(* []).  For a type error inside a FILTER the documents give no example; the *)
+(* readings are "the call has no value" (= null, as a missing member) and    *)
+(* "the filter cannot be evaluated for this node" (node not selected).  The  *)
+(* evaluator computes the first reading (ERRV becomes null) and HasErr tells *)
+(* whether a type error occurred anywhere in the expression: FilterKids then *)
+(* decides "not selected" when the first reading says so too, and don't care *)
+(* otherwise.  The same rule is applied to + - * / % and unary minus on an   *)
+(* operand that is not a number ([data] filters.json "Filter expression with *)
+(* addition": a missing member plus 50 is not 100; no document gives such an *)
+(* expression a value).                                                      *)
+ERRV == <<"ERR">>
+IsArrLike(v) == v[1] = "arr" \/ v[1] = "uarr"       \* "uarr": an array whose order the documents leave open
+AllNums(s) == \A i \in 1..Len(s) : IsNum(s[i])
+AllStrs(s) == \A i \in 1..Len(s) : s[i][1] = "str"
+AllDyadic(s) == \A i \in 1..Len(s) : Dyadic(s[i])
+(* exactness guards: a result that is exactly representable although an      *)
+(* operand was not (0.1 + 0.4) may differ in the last bit when computed with *)
+(* doubles, and a later ==, floor or ceil would see it: don't care.  ([doc]  *)
+(* floor.md spells the hazard out: "the representable floating point number  *)
+(* closest to 8.95*100 is strictly less than 895.0".)                        *)
+Exact2(x, y, res) == IF (Dyadic(x) /\ Dyadic(y)) \/ ~Dyadic(res) THEN res ELSE DCV
+ExactSeq(s, res) == IF AllDyadic(s) \/ (IsNum(res) /\ ~Dyadic(res)) THEN res ELSE DCV
+RECURSIVE SumSeq(_, _), ProdSeq(_, _)
+SumSeq(s, i) == IF i > Len(s) THEN <<"int", 0>> ELSE NumAdd(s[i], SumSeq(s, i + 1))
+ProdSeq(s, i) == IF i > Len(s) THEN <<"int", 1>> ELSE NumMul(s[i], ProdSeq(s, i + 1))
+\* an extreme element of a non-empty sequence under a strict order
+Extreme(s, Before(_, _)) == s[CHOOSE i \in 1..Len(s) : \A j \in 1..Len(s) : ~Before(s[j], s[i])]
+StrLess(a, b) == KeyLess(a[2], b[2])
+
+IsPrefixOf(p, t) == Len(p) <= Len(t) /\ SubSeq(t, 1, Len(p)) = p
+IsSuffixOf(p, t) == Len(p) <= Len(t) /\ SubSeq(t, Len(t) - Len(p) + 1, Len(t)) = p
+IsSubstrOf(p, t) == \E i \in 0..(Len(t) - Len(p)) : SubSeq(t, i + 1, i + Len(p)) = p
+
+(* to_number.md: "If string, returns the parsed number" / "type error if the *)
+(* string cannot be parsed as a number".  Decided: the JSON number forms     *)
+(* -?(0|[1-9][0-9]*)(.[0-9]+)? parse to their value; a string containing any *)
+(* character that occurs in no number notation (or the empty string) cannot  *)
+(* be parsed; anything else built from number characters (" 1", "+1", "1e1", *)
+(* "01", "1.") depends on a notation the page does not name: don't care.     *)
+IsDigitCp(c) == c >= 48 /\ c <= 57
+AllDigits(s) == s # <<>> /\ \A i \in 1..Len(s) : IsDigitCp(s[i])
+RECURSIVE DigitsVal(_, _, _)
+DigitsVal(s, i, acc) == IF i > Len(s) THEN acc ELSE DigitsVal(s, i + 1, acc * 10 + (s[i] - 48))
+RECURSIVE Pow10(_)
+Pow10(k) == IF k = 0 THEN 1 ELSE 10 * Pow10(k - 1)
+ParseNumber(s) ==
+  LET neg == s # <<>> /\ s[1] = 45
+      body == IF neg THEN Tail(s) ELSE s
+      dot == IF \E i \in 1..Len(body) : body[i] = 46 THEN CHOOSE i \in 1..Len(body) : body[i] = 46 /\ \A j \in 1..(i - 1) : body[j] # 46 ELSE 0
+      ip == IF dot = 0 THEN body ELSE SubSeq(body, 1, dot - 1)
+      fp == IF dot = 0 THEN <<>> ELSE SubSeq(body, dot + 1, Len(body))
+      strict == AllDigits(ip) /\ (Len(ip) = 1 \/ ip[1] # 48) /\ (dot = 0 \/ AllDigits(fp)) /\ Len(body) <= 7
+      numberish == s # <<>> /\ \A i \in 1..Len(s) : IsDigitCp(s[i]) \/ s[i] \in {43, 45, 46, 69, 101, 32}
+  IN IF strict THEN MkNum((IF neg THEN 0 - 1 ELSE 1) * (DigitsVal(ip, 1, 0) * Pow10(Len(fp)) + DigitsVal(fp, 1, 0)), Pow10(Len(fp)))
+     ELSE IF numberish THEN DCV
+     ELSE ERRV
+
+(* tokenize.md: "an array of strings formed by splitting the source string   *)
+(* ..., separated by substrings that match the given regular expression      *)
+(* pattern".  Regular expressions stay outside C12; decided are patterns     *)
+(* that are a non-empty run of letters, digits, ',', ';', ' ' or non-ASCII   *)
+(* characters (they match exactly themselves in every regular expression     *)
+(* dialect).  Whether an empty LAST piece is kept (source ending in a        *)
+(* separator, empty source) differs between the common split functions and   *)
+(* the page does not say: don't care.  [data] regex.json "tokenize".         *)
+PlainPattern(p) == p # <<>> /\ \A i \in 1..Len(p) :
+                     (p[i] >= 48 /\ p[i] <= 57) \/ (p[i] >= 65 /\ p[i] <= 90) \/ (p[i] >= 97 /\ p[i] <= 122) \/ p[i] \in {44, 59, 32} \/ p[i] >= 128
+RECURSIVE SplitFrom(_, _, _, _)
+SplitFrom(s, p, i, cur) ==
+  IF i > Len(s) THEN <<cur>>
+  ELSE IF i + Len(p) - 1 <= Len(s) /\ SubSeq(s, i, i + Len(p) - 1) = p THEN <<cur>> \o SplitFrom(s, p, i + Len(p), <<>>)
+  ELSE SplitFrom(s, p, i + 1, Append(cur, s[i]))
+Tokenize(s, p) == IF ~PlainPattern(p) \/ s = <<>> THEN DCV
+                  ELSE LET t == SplitFrom(s, p, 1, <<>>) IN
+                       IF t[Len(t)] = <<>> THEN DCV ELSE <<"arr", [i \in 1..Len(t) |-> <<"str", t[i]>>]>>
+
+(* The built-in functions; a is the sequence of argument VALUES.  Result: a  *)
+(* value, ERRV (a type error by the page's own clauses) or DCV.              *)
+FnApply(f, a) ==
+  CASE f = "abs" ->       \* abs.md "Returns the absolute value of a number.  It is a type error if the provided argument is not a number."
+         IF IsNum(a[1]) THEN MkNum(AbsI(NumN(a[1])), NumD(a[1])) ELSE ERRV
+    [] f = "ceil" ->      \* ceil.md "Returns the smallest integer value not less than the provided number."
+         IF IsNum(a[1]) THEN <<"int", 0 - ((0 - NumN(a[1])) \div NumD(a[1]))>> ELSE ERRV
+    [] f = "floor" ->     \* floor.md "Returns the largest integer value not greater than the given number."
+         IF IsNum(a[1]) THEN <<"int", NumN(a[1]) \div NumD(a[1])>> ELSE ERRV
+    [] f = "sum" ->       \* sum.md "number sum(array[number] value) ... Returns 0 if the array is empty.  It is a type error if any item in the array is not a number."
+         IF IsArrLike(a[1]) /\ AllNums(a[1][2]) THEN ExactSeq(a[1][2], SumSeq(a[1][2], 1)) ELSE ERRV
+    [] f = "avg" ->       \* avg.md "Returns the average of the items in an array of numbers, or null if the array is empty"; type error: not an array / items that are not numbers
+         IF IsArrLike(a[1]) /\ AllNums(a[1][2]) THEN
+           (IF a[1][2] = <<>> THEN <<"null">>
+            ELSE LET t == SumSeq(a[1][2], 1) IN ExactSeq(a[1][2], MkNum(NumN(t), NumD(t) * Len(a[1][2]))))
+         ELSE ERRV
+    [] f = "prod" ->      \* prod.md "Returns the product of the items in an array of numbers, or null if the array is empty."
+         IF IsArrLike(a[1]) /\ AllNums(a[1][2]) THEN
+           (IF a[1][2] = <<>> THEN <<"null">> ELSE ExactSeq(a[1][2], ProdSeq(a[1][2], 1)))
+         ELSE ERRV
+    [] f \in {"min", "max"} ->   \* min.md / max.md "the lowest / highest number found in an array of numbers, or ... string in an array of strings, or null if the array is empty"; type error: not an array / items not all numbers or all strings
+         IF ~IsArrLike(a[1]) THEN ERRV
+         ELSE IF a[1][2] = <<>> THEN <<"null">>
+         ELSE IF AllNums(a[1][2]) THEN (IF f = "min" THEN Extreme(a[1][2], NumLess) ELSE Extreme(a[1][2], LAMBDA x, y : NumLess(y, x)))
+         ELSE IF AllStrs(a[1][2]) THEN (IF f = "min" THEN Extreme(a[1][2], StrLess) ELSE Extreme(a[1][2], LAMBDA x, y : StrLess(y, x)))
+         ELSE ERRV
+    [] f = "keys" ->      \* keys.md "Returns an array of keys in the object.  It is a type error if the provided argument is not an object."
+                          \* The order of the keys is not stated (and json / ojson enumerate members differently): "uarr" for two or more.
+         IF a[1][1] = "obj" THEN
+           LET ks == SortKeys(DOMAIN a[1][2]) IN <<IF Len(ks) >= 2 THEN "uarr" ELSE "arr", [i \in 1..Len(ks) |-> <<"str", ks[i]>>]>>
+         ELSE ERRV
+    [] f = "contains" ->  \* contains.md: array: "contains an item that is equal to the search value"; string: "contains a substring that is equal to the
+                          \* search value"; type error: source not an array or string / source a string but search value not a string
+         IF IsArrLike(a[1]) THEN (IF a[2][1] = "uarr" THEN DCV ELSE <<"bool", \E i \in 1..Len(a[1][2]) : JEq(a[1][2][i], a[2])>>)
+         ELSE IF a[1][1] = "str" THEN (IF a[2][1] = "str" THEN <<"bool", IsSubstrOf(a[2][2], a[1][2])>> ELSE ERRV)
+         ELSE ERRV
+    [] f = "starts_with" ->   \* starts_with.md; type error: source / prefix not a string
+         IF a[1][1] = "str" /\ a[2][1] = "str" THEN <<"bool", IsPrefixOf(a[2][2], a[1][2])>> ELSE ERRV
+    [] f = "ends_with" ->     \* ends_with.md
+         IF a[1][1] = "str" /\ a[2][1] = "str" THEN <<"bool", IsSuffixOf(a[2][2], a[1][2])>> ELSE ERRV
+    [] f = "to_number" ->     \* to_number.md "If string, returns the parsed number.  If number, returns the passed in value."
+         IF IsNum(a[1]) THEN a[1] ELSE IF a[1][1] = "str" THEN ParseNumber(a[1][2]) ELSE ERRV
+    [] f = "tokenize" ->      \* tokenize.md "It is a type error if either argument is not a string."
+         IF a[1][1] = "str" /\ a[2][1] = "str" THEN Tokenize(a[1][2], a[2][2]) ELSE ERRV
+FnArity(f) == IF f \in {"contains", "starts_with", "ends_with", "tokenize"} THEN 2 ELSE 1
+
+(* Arithmetic on two numbers ([doc] grammar.md binary-operator; [data]       *)
+(* filters.json groups "addition", "subtraction", "multiplication",          *)
+(* "division", "modulus").  Decided: + - * exactly; x / y when the quotient  *)
+(* of two integers is an integer ([data] 50/10 == 5) or when an operand is   *)
+(* not an integer ([doc] sum.md sum(..)/length(..): the real quotient);      *)
+(* x % y for integers when y divides x or both are positive ([data] 60 % 40  *)
+(* == 20).  Not stated anywhere: division / modulus by zero, the quotient of *)
+(* two integers that is not an integer (1 or 1.5 for 3/2 ?), the sign of a   *)
+(* remainder with a negative operand, % on non-integers: don't care.         *)
+ArithV(op, x, y) ==
+  CASE op = "+" -> Exact2(x, y, NumAdd(x, y))
+    [] op = "-" -> Exact2(x, y, NumAdd(x, NumNeg(y)))
+    [] op = "*" -> Exact2(x, y, NumMul(x, y))
+    [] op = "/" -> IF NumN(y) = 0 THEN DCV
+                   ELSE IF x[1] = "int" /\ y[1] = "int" THEN (IF x[2] % AbsI(y[2]) = 0 THEN MkNum(x[2], y[2]) ELSE DCV)
+                   ELSE Exact2(x, y, MkNum(NumN(x) * NumD(y), NumD(x) * NumN(y)))
+    [] op = "%" -> IF x[1] = "int" /\ y[1] = "int" /\ y[2] # 0 THEN
+                     (IF x[2] % AbsI(y[2]) = 0 THEN <<"int", 0>> ELSE IF x[2] > 0 /\ y[2] > 0 THEN <<"int", x[2] % y[2]>> ELSE DCV)
+                   ELSE DCV
+
+-----------------------------------------------------------------------------
 (* Evaluation.  EvalSegs(segs, nodes, root) applies the segments left to     *)
 (* right to a node list ([rfc] 2.1.2: each segment maps the input nodelist   *)
 (* to the concatenation of the per-node results).                           *)
 RECURSIVE EvalSegs(_, _, _), ApplySeg(_, _, _), ApplySel(_, _, _), ApplySels(_, _, _, _),
-          FilterKids(_, _, _, _), FVal(_, _, _), Descend(_, _, _), DescendKids(_, _, _, _), ApplyAll(_, _, _, _)
+          FilterKids(_, _, _, _), FVal(_, _, _), Descend(_, _, _), DescendKids(_, _, _, _), ApplyAll(_, _, _, _),
+          HasErr(_, _, _)
 
 (* filter expression value for current node c: a JSON value or DCV *)
 FVal(e, c, r) ==
@@ -260,6 +474,7 @@ FVal(e, c, r) ==
          ELSE CASE x[1] = "arr" -> JInt(Len(x[2]))
                 [] x[1] = "obj" -> JInt(Cardinality(DOMAIN x[2]))
                 [] x[1] = "str" -> JInt(Len(x[2]))
+                [] x[1] = "uarr" -> JInt(Len(x[2]))
                 [] OTHER -> DCV
     [] e[1] = "lenp" ->
          (* [doc] jsonpath.md: "A length property on arrays and strings that returns the    *)
@@ -280,13 +495,53 @@ FVal(e, c, r) ==
                        IF x = DCV \/ y = DCV THEN DCV ELSE JBool(Truthy(x) /\ Truthy(y))
     [] e[1] = "or" -> LET x == FVal(e[2], c, r)  y == FVal(e[3], c, r) IN
                       IF x = DCV \/ y = DCV THEN DCV ELSE JBool(Truthy(x) \/ Truthy(y))
+    [] e[1] = "fn" ->
+         (* a function call: the arguments are filter expressions ([doc] grammar.md function-arg = expression); a   *)
+         (* path argument denotes what it denotes anywhere else in a filter: the addressed value when singular, the *)
+         (* array of the selected values otherwise ([doc] avg.md avg($.books[*].price), length.md).  A singular    *)
+         (* path that addresses nothing, passed where every value is acceptable (the search value of contains on an *)
+         (* array), is described nowhere: don't care.  ERRV reads as null here, see HasErr.                         *)
+         LET a == [i \in 1..Len(e[3]) |-> FVal(e[3][i], c, r)] IN
+         IF \E i \in 1..Len(a) : a[i] = DCV THEN DCV
+         ELSE IF e[2] = "contains" /\ IsArrLike(a[1]) /\ e[3][2][1] = "q" /\ IsSingular(e[3][2][3]) /\ a[2] = JNull
+                 /\ NodesOf(EvalSegs(e[3][2][3], <<IF e[3][2][2] = "cur" THEN c ELSE MkNode(<<>>, r)>>, r)) = <<>> THEN DCV
+         ELSE LET v == FnApply(e[2], a) IN IF v = ERRV THEN JNull ELSE v
+    [] e[1] = "fq" ->
+         (* segments applied to the value of a function call ([doc] tokenize.md tokenize(@.author,'\\s+')[-1], [data] *)
+         (* functions.json keys($.store.book[0])[*]): the value takes the place of the document                     *)
+         LET v == FVal(e[2], c, r) IN
+         IF v = DCV \/ v[1] = "uarr" THEN DCV
+         ELSE LET ns == EvalSegs(e[3], <<MkNode(<<>>, v)>>, v)
+                  vs == ValuesOf(ns)
+              IN IF HasMark(ns, DCMark) \/ HasParent(e[3]) \/ HasDesc(e[3]) THEN DCV
+                 ELSE IF IsSingular(e[3]) THEN (IF vs = <<>> THEN JNull ELSE vs[1])
+                 ELSE IF HasMark(ns, UOMark) /\ Len(vs) >= 2 THEN DCV
+                 ELSE JArr(vs)
+    [] e[1] = "neg" ->       \* [doc] grammar.md unary-operator "-"
+         LET x == FVal(e[2], c, r) IN IF x = DCV THEN DCV ELSE IF IsNum(x) THEN NumNeg(x) ELSE JNull
+    [] e[1] = "ar" ->
+         LET x == FVal(e[3], c, r)  y == FVal(e[4], c, r) IN
+         IF x = DCV \/ y = DCV THEN DCV ELSE IF IsNum(x) /\ IsNum(y) THEN ArithV(e[2], x, y) ELSE JNull
+
+(* did a type error occur anywhere in e (evaluated for node c, no short cut)? Only asked when FVal(e, c, r) # DCV. *)
+HasErr(e, c, r) ==
+  CASE e[1] \in {"lit", "q", "lenp"} -> FALSE
+    [] e[1] \in {"len", "not", "fq"} -> HasErr(e[2], c, r)
+    [] e[1] = "neg" -> HasErr(e[2], c, r) \/ ~IsNum(FVal(e[2], c, r))
+    [] e[1] = "fn" -> \/ \E i \in 1..Len(e[3]) : HasErr(e[3][i], c, r)
+                      \/ FnApply(e[2], [i \in 1..Len(e[3]) |-> FVal(e[3][i], c, r)]) = ERRV
+    [] e[1] = "ar" -> HasErr(e[3], c, r) \/ HasErr(e[4], c, r) \/ ~IsNum(FVal(e[3], c, r)) \/ ~IsNum(FVal(e[4], c, r))
+    [] e[1] = "cmp" -> HasErr(e[3], c, r) \/ HasErr(e[4], c, r)
+    [] e[1] \in {"and", "or"} -> HasErr(e[2], c, r) \/ HasErr(e[3], c, r)
 
 (* [rfc] 2.3.5.2: the filter selector tests every child of the node (array  *)
 (* elements, object member values; [data] "Filter expression on object")    *)
 FilterKids(f, ks, i, r) ==
   IF i > Len(ks) THEN <<>>
   ELSE LET x == FVal(f, ks[i], r) IN
-       (IF x = DCV THEN <<DCMark>> ELSE IF Truthy(x) THEN <<ks[i]>> ELSE <<>>) \o FilterKids(f, ks, i + 1, r)
+       (IF x = DCV THEN <<DCMark>>
+        ELSE IF Truthy(x) THEN (IF HasErr(f, ks[i], r) THEN <<DCMark>> ELSE <<ks[i]>>)     \* see "TYPE ERRORS" above
+        ELSE <<>>) \o FilterKids(f, ks, i + 1, r)
 
 (* one selector applied to one node *)
 ApplySel(sel, n, r) ==
@@ -336,6 +591,30 @@ EvalSegs(segs, ns, r) == IF segs = <<>> THEN ns ELSE EvalSegs(Tail(segs), ApplyA
 \* raw evaluation of an absolute query (nodes and marks)
 EvalRaw(segs, doc) == EvalSegs(segs, <<MkNode(<<>>, doc)>>, doc)
 NodesOf(raw) == SelectSeq(raw, IsNode)
+
+(* A whole expression that is a function call, optionally followed by       *)
+(* segments ([doc] length.md json_query(j, "length($.books[*])") -> [4];     *)
+(* [data] functions.json "keys($.store.book[0])[*]", regex.json              *)
+(* "tokenize($,'\\s+')[*]").  "@" at this level is the document ([data]      *)
+(* "length(@)" -> 12).  The result is a list of VALUES (no document location *)
+(* corresponds to them, and no document says what "path" they carry).        *)
+(*   a type error in the call itself -> no result ([data] "abs($.str)" -> [])*)
+(*   a type error only inside an argument while the call itself goes through *)
+(*   under the null reading (contains(x, abs('a'))) -> don't care            *)
+(* Result: [dc, ord, vals].                                                  *)
+TopEval(fe, segs, doc) ==
+  LET c == MkNode(<<>>, doc)
+      v == FVal(fe, c, doc)
+      selfErr == fe[1] = "fn" /\ (\A i \in 1..Len(fe[3]) : FVal(fe[3][i], c, doc) # DCV)
+                 /\ FnApply(fe[2], [i \in 1..Len(fe[3]) |-> FVal(fe[3][i], c, doc)]) = ERRV
+  IN IF v = DCV THEN [dc |-> TRUE, ord |-> TRUE, vals |-> <<>>]
+     ELSE IF selfErr THEN [dc |-> FALSE, ord |-> TRUE, vals |-> <<>>]
+     ELSE IF HasErr(fe, c, doc) THEN [dc |-> TRUE, ord |-> TRUE, vals |-> <<>>]
+     ELSE IF segs = <<>> THEN [dc |-> v[1] = "uarr", ord |-> TRUE, vals |-> <<v>>]
+     ELSE LET w == IF v[1] = "uarr" THEN <<"arr", v[2]>> ELSE v
+              ns == EvalSegs(segs, <<MkNode(<<>>, w)>>, w)
+          IN [dc |-> HasMark(ns, DCMark) \/ (v[1] = "uarr" /\ segs # <<Child(<<SWild>>)>>),
+              ord |-> ~HasMark(ns, UOMark) /\ v[1] # "uarr", vals |-> ValuesOf(ns)]
 Unconstrained(raw) == HasMark(raw, DCMark)
 OrderOpen(raw) == HasMark(raw, UOMark)
 
@@ -449,7 +728,35 @@ OpStr(op) == CASE op = "==" -> <<61,61>> [] op = "!=" -> <<33,61>> [] op = "<" -
                [] op = ">" -> <<62>> [] op = ">=" -> <<62,61>>
 LengthCps == <<108,101,110,103,116,104>>
 
-RECURSIVE ShowSegs(_, _, _), ShowSeg(_, _), ShowSel(_, _), ShowSels(_, _, _), ShowF(_, _), ShowOperandIn(_, _, _)
+(* Functions family: function names, arithmetic operators, number literals  *)
+(* with a fraction (only halves, quarters and eighths are ever rendered),    *)
+(* and the operator levels used to place parentheses ([ext] operator table,  *)
+(* see "Built-in functions and arithmetic").  Style field "tight" (only read *)
+(* for arithmetic operators): no white space around + - * / % as in [data]   *)
+(* "@.key+50==100", "ceil(1.2*2)".                                           *)
+FnNameCps(f) == CASE f = "abs" -> <<97,98,115>> [] f = "avg" -> <<97,118,103>> [] f = "ceil" -> <<99,101,105,108>>
+                  [] f = "contains" -> <<99,111,110,116,97,105,110,115>> [] f = "ends_with" -> <<101,110,100,115,95,119,105,116,104>>
+                  [] f = "floor" -> <<102,108,111,111,114>> [] f = "keys" -> <<107,101,121,115>> [] f = "max" -> <<109,97,120>>
+                  [] f = "min" -> <<109,105,110>> [] f = "prod" -> <<112,114,111,100>>
+                  [] f = "starts_with" -> <<115,116,97,114,116,115,95,119,105,116,104>> [] f = "sum" -> <<115,117,109>>
+                  [] f = "to_number" -> <<116,111,95,110,117,109,98,101,114>> [] f = "tokenize" -> <<116,111,107,101,110,105,122,101>>
+ArOpStr(op) == CASE op = "+" -> <<43>> [] op = "-" -> <<45>> [] op = "*" -> <<42>> [] op = "/" -> <<47>> [] op = "%" -> <<37>>
+Renderable(v) == v[1] # "rat" \/ v[3] \in {2, 4, 8}
+ShowNum(v) == IF v[1] = "int" THEN IntStr(v[2])
+              ELSE LET a == AbsI(v[2])  w == a \div v[3]  m == ((a % v[3]) * 1000) \div v[3]      \* m: the fraction in thousandths
+                       frac == IF m % 100 = 0 THEN Dec(m \div 100) ELSE IF m % 10 = 0 THEN (IF m < 100 THEN <<48>> ELSE <<>>) \o Dec(m \div 10)
+                               ELSE (IF m < 100 THEN <<48>> ELSE <<>>) \o Dec(m)
+                   IN (IF v[2] < 0 THEN <<45>> ELSE <<>>) \o Dec(w) \o <<46>> \o frac
+Prec(e) == CASE e[1] \in {"not", "neg"} -> 1
+             [] e[1] = "ar" -> (IF e[2] \in {"*", "/", "%"} THEN 3 ELSE 4)
+             [] e[1] = "cmp" -> (IF e[2] \in {"==", "!="} THEN 6 ELSE 5)
+             [] e[1] = "and" -> 7
+             [] e[1] = "or" -> 8
+             [] OTHER -> 0
+ASp(sty) == IF sty.tight THEN <<>> ELSE <<32>>
+
+RECURSIVE ShowSegs(_, _, _), ShowSeg(_, _), ShowSel(_, _), ShowSels(_, _, _), ShowF(_, _), ShowOperandIn(_, _, _),
+          ShowOpnd(_, _, _, _), ShowArgs(_, _, _)
 ShowQuery(rel, segs, sty) == <<IF rel = "root" THEN 36 ELSE 64>> \o ShowSegs(segs, 1, sty)
 ShowSegs(segs, i, sty) == IF i > Len(segs) THEN <<>> ELSE ShowSeg(segs[i], sty) \o ShowSegs(segs, i + 1, sty)
 ShowSels(sels, i, sty) == IF i > Len(sels) THEN <<>>
@@ -474,7 +781,16 @@ ShowSel(sel, sty) ==
                            \o (IF sel[4][1] = "abs" THEN (IF sty.sp THEN <<58>> ELSE <<>>) ELSE <<58>> \o ShowBound(sel[4]))
     [] sel[1] = "filter" -> <<63>> \o (IF sty.par THEN <<40>> \o ShowF(sel[2], sty) \o <<41>> ELSE ShowF(sel[2], sty))
     [] sel[1] = "path" -> ShowQuery(sel[2], sel[3], sty)
-IsAtom(e) == e[1] \in {"lit", "q", "len", "lenp"}
+IsAtom(e) == e[1] \in {"lit", "q", "len", "lenp", "fn", "fq"}
+\* an operand of a binary arithmetic or comparison operator of level lv, on its left ("L") or right ("R") side: with style
+\* "min" only the parentheses the operator levels and left associativity require, otherwise around every compound operand
+ShowOpnd(e, lv, side, sty) ==
+  LET need == IF Prec(e) = 0 THEN FALSE
+              ELSE IF ~sty.min THEN TRUE
+              ELSE IF side = "L" THEN Prec(e) > lv ELSE Prec(e) >= lv
+  IN IF need THEN <<40>> \o ShowF(e, sty) \o <<41>> ELSE ShowF(e, sty)
+ShowArgs(args, i, sty) == IF i > Len(args) THEN <<>>
+                          ELSE (IF i > 1 THEN <<44>> \o Sp(sty) ELSE <<>>) \o ShowF(args[i], sty) \o ShowArgs(args, i + 1, sty)
 \* an operand of && (ctx "and"), || (ctx "or") or ! (ctx "not")
 ShowOperandIn(e, ctx, sty) ==
   LET need == IF IsAtom(e) THEN FALSE
@@ -488,15 +804,22 @@ ShowF(e, sty) ==
          (CASE e[2][1] = "null" -> <<110,117,108,108>>
             [] e[2][1] = "bool" -> (IF e[2][2] THEN <<116,114,117,101>> ELSE <<102,97,108,115,101>>)
             [] e[2][1] = "int" -> IntStr(e[2][2])
+            [] e[2][1] = "rat" -> ShowNum(e[2])
             [] e[2][1] = "str" -> Quoted(e[2][2], sty))
     [] e[1] = "q" -> ShowQuery(e[2], e[3], sty)
     [] e[1] = "len" -> LengthCps \o <<40>> \o ShowF(e[2], sty) \o <<41>>
     [] e[1] = "lenp" -> ShowQuery(e[2], e[3], sty) \o <<46>> \o LengthCps
-    [] e[1] = "cmp" -> ShowF(e[3], sty) \o Sp(sty) \o OpStr(e[2]) \o Sp(sty) \o ShowF(e[4], sty)
+    [] e[1] = "cmp" -> ShowOpnd(e[3], Prec(e), "L", sty) \o Sp(sty) \o OpStr(e[2]) \o Sp(sty) \o ShowOpnd(e[4], Prec(e), "R", sty)
+                       \* (operands that are atoms - all there were before the functions family - are rendered as they are)
     [] e[1] = "not" -> <<33>> \o ShowOperandIn(e[2], "not", sty)
     [] e[1] = "and" -> ShowOperandIn(e[2], "and", sty) \o <<32, 38, 38, 32>> \o ShowOperandIn(e[3], "and", sty)
     [] e[1] = "or" -> ShowOperandIn(e[2], "or", sty) \o <<32, 124, 124, 32>> \o ShowOperandIn(e[3], "or", sty)
+    [] e[1] = "fn" -> FnNameCps(e[2]) \o <<40>> \o ShowArgs(e[3], 1, sty) \o <<41>>
+    [] e[1] = "fq" -> ShowF(e[2], sty) \o ShowSegs(e[3], 1, sty)
+    [] e[1] = "neg" -> <<45>> \o (IF Prec(e[2]) = 0 \/ (sty.min /\ Prec(e[2]) = 1) THEN ShowF(e[2], sty) ELSE <<40>> \o ShowF(e[2], sty) \o <<41>>)
+    [] e[1] = "ar" -> ShowOpnd(e[3], Prec(e), "L", sty) \o ASp(sty) \o ArOpStr(e[2]) \o ASp(sty) \o ShowOpnd(e[4], Prec(e), "R", sty)
 Show(segs, sty) == ShowQuery("root", segs, sty)
+ShowTop(fe, segs, sty) == ShowF(fe, sty) \o ShowSegs(segs, 1, sty)      \* a function call as the whole expression
 
 StyDot == [dot |-> TRUE, q |-> "s", sp |-> FALSE, par |-> TRUE, min |-> TRUE]
 StyBrS == [dot |-> FALSE, q |-> "s", sp |-> FALSE, par |-> FALSE, min |-> FALSE]
